@@ -56,12 +56,13 @@ Proof.
            | H : _ && _ = true |- _ => apply andb_prop in H as [H ?]
            | H : (if ?x then true else false) = true |- _ => destruct x; [subst|discriminate]
            | H : Bool.eqb _ _ = true |- _ => apply Bool.eqb_prop in H; subst
+           | H : Z.eqb _ _ = true |- _ => apply Z.eqb_eq in H; subst
            end; f_equal; auto.
 Qed.
 
 Lemma ctr_eqb_refl : forall a, ctr_eqb a a = true.
 Proof.
-  induction a; cbn; rewrite ?IHa, ?IHa1, ?IHa2; auto;
+  induction a; cbn; rewrite ?IHa, ?IHa1, ?IHa2, ?Z.eqb_refl; auto;
     destruct (list_eq_dec string_dec names names); try congruence; cbn; auto.
   now rewrite Bool.eqb_reflx.
 Qed.
